@@ -192,7 +192,9 @@ pub fn gen_decsteps(rng: &mut Rng, thorough: bool, out: &mut Sink) {
             out.push(decstep_line(&[Decoding::Replace { pattern: DecodingReplacePattern::Character(c), replacement: "é".into() }], s.as_bytes()));
         }
         for pat in ["", "a", "aa", "éa", "▁"] {
-            for rep in ["", "x", "aa"] {
+            // replacements of the pattern's own byte length whose tail can start the pattern again ("aa" -> "xa" on
+            // "aaa"): replacement is left to right over the ORIGINAL text, never over what was just written
+            for rep in ["", "x", "aa", "xa", "ba", "aé", "éa"] {
                 out.push(decstep_line(
                     &[Decoding::Replace { pattern: DecodingReplacePattern::String(pat.into()), replacement: rep.into() }],
                     s.as_bytes(),
